@@ -72,7 +72,7 @@ def run(chk) -> None:
     from ..astx import stale_alias_reads
     stale = stale_alias_reads(cfg, "shared_state")
     rebinds_ss = [s_ for s_ in ast.walk(sr) if isinstance(s_, ast.Assign) and any(isinstance(t, ast.Attribute) and t.attr == "shared_state" for t in s_.targets)]
-    chk.floor("C09.R1", "re-bindings of <execution>.shared_state in the reducer (the re-run refreshes the snapshot)", len(rebinds_ss), 1)
+    chk.extra["shared_state_rebindings"] = len(rebinds_ss)  # (that the re-run refreshes the snapshot at all is C09.R3's obligation)
     chk.ob("C09.R1", "every read of the invocation's snapshot sees the snapshot as refreshed by an earlier re-run in the same tick", not stale, m=mc, node=stale[0][2] if stale else add, fn=sr,
            instance="stale-check:snapshot-current",
            reason=(f"`{ast.unparse(stale[0][0])[:70]}` is bound before `{ast.unparse(stale[0][1])[:60]}` and read again afterwards: a second stale buffer in the same tick is compared with the "
